@@ -29,13 +29,13 @@ def HasMarkerLine (d : Bytes) : Prop := ∃ l ∈ splitLines d, MarkerLine l
 
 instance (d : Bytes) : Decidable (HasMarkerLine d) := by unfold HasMarkerLine; infer_instance
 
-theorem not_markerLine_iff {l : Line} : ¬ MarkerLine l ↔ markerName l = some [] := by
+theorem not_markerLine_iff [FLen] {l : Line} : ¬ MarkerLine l ↔ markerName l = some [] := by
   obtain ⟨n, hn⟩ := markerName_total l
   unfold MarkerLine
   rw [hn]
   simp
 
-theorem markerLine_nl (b : Bytes) (nl : Bool) : MarkerLine ⟨b, nl⟩ ↔ MarkerLine ⟨b, true⟩ := by
+theorem markerLine_nl [FLen] [FCR] [FLit] (b : Bytes) (nl : Bool) : MarkerLine ⟨b, nl⟩ ↔ MarkerLine ⟨b, true⟩ := by
   unfold MarkerLine
   rw [markerName_nl]
 
@@ -50,7 +50,7 @@ theorem bodyOK_nil : BodyOK [] := by
 
 theorem bodyOK_fixNL {b : Bytes} (h : BodyOK b) : fixNL b = b := fixNL_of_ends h.1
 
-theorem bodyOK_snoc {acc body : Bytes} {nl : Bool} (h : BodyOK acc) (hb : NL ∉ body)
+theorem bodyOK_snoc [FLen] [FCR] [FLit] {acc body : Bytes} {nl : Bool} (h : BodyOK acc) (hb : NL ∉ body)
     (hm : ¬ MarkerLine ⟨body, nl⟩) : BodyOK (acc ++ body ++ [NL]) := by
   refine ⟨Or.inr (by simp), ?_⟩
   rintro ⟨l, hl, hml⟩
@@ -74,7 +74,7 @@ theorem accOK_nil_acc (ls : List Line) : AccOK ls [] := by
   · rw [fixNL_nil]; exact bodyOK_nil
   · exact bodyOK_nil
 
-theorem accOK_step {l : Line} {rest : List Line} {acc : Bytes} (hok : LinesOK (l :: rest))
+theorem accOK_step [FLen] [FCR] [FLit] {l : Line} {rest : List Line} {acc : Bytes} (hok : LinesOK (l :: rest))
     (h : BodyOK acc) (hm : ¬ MarkerLine l) : AccOK rest (acc ++ l.bytes) := by
   obtain ⟨h1, h2, h3, _⟩ := LinesOK_cons hok
   obtain ⟨body, nl⟩ := l
@@ -112,7 +112,7 @@ open GIV
 
 /-! ### totality -/
 
-theorem parseFiles_total (ls : List Line) (name acc : Bytes) : ∃ fs, parseFiles ls name acc = some fs := by
+theorem parseFiles_total [FLen] (ls : List Line) (name acc : Bytes) : ∃ fs, parseFiles ls name acc = some fs := by
   induction ls generalizing name acc with
   | nil => exact ⟨_, rfl⟩
   | cons l rest ih =>
@@ -125,7 +125,7 @@ theorem parseFiles_total (ls : List Line) (name acc : Bytes) : ∃ fs, parseFile
       · simp
     · exact ih _ _
 
-theorem parseLines_total (ls : List Line) (acc : Bytes) : ∃ a, parseLines ls acc = some a := by
+theorem parseLines_total [FLen] (ls : List Line) (acc : Bytes) : ∃ a, parseLines ls acc = some a := by
   induction ls generalizing acc with
   | nil => exact ⟨_, rfl⟩
   | cons l rest ih =>
@@ -138,7 +138,7 @@ theorem parseLines_total (ls : List Line) (acc : Bytes) : ∃ a, parseLines ls a
       · simp
     · exact ih _
 
-theorem findFM_total (ls : List Line) (acc : Bytes) : ∃ f, findFM ls acc = some f := by
+theorem findFM_total [FLen] (ls : List Line) (acc : Bytes) : ∃ f, findFM ls acc = some f := by
   induction ls generalizing acc with
   | nil => exact ⟨_, rfl⟩
   | cons l rest ih =>
@@ -150,7 +150,7 @@ theorem findFM_total (ls : List Line) (acc : Bytes) : ∃ f, findFM ls acc = som
 
 /-! ### skipping non-marker lines -/
 
-theorem parseFiles_skip {ls : List Line} (h : ∀ l ∈ ls, ¬ MarkerLine l) (rest : List Line)
+theorem parseFiles_skip [FLen] {ls : List Line} (h : ∀ l ∈ ls, ¬ MarkerLine l) (rest : List Line)
     (name acc : Bytes) : parseFiles (ls ++ rest) name acc = parseFiles rest name (acc ++ joinLines ls) := by
   induction ls generalizing acc with
   | nil => simp [joinLines]
@@ -159,7 +159,7 @@ theorem parseFiles_skip {ls : List Line} (h : ∀ l ∈ ls, ¬ MarkerLine l) (re
     simp only [List.cons_append, parseFiles, hl, ne_eq, not_true_eq_false, if_false]
     rw [ih (fun l' hl' => h l' (by simp [hl'])), joinLines_cons, List.append_assoc]
 
-theorem parseLines_skip {ls : List Line} (h : ∀ l ∈ ls, ¬ MarkerLine l) (rest : List Line)
+theorem parseLines_skip [FLen] {ls : List Line} (h : ∀ l ∈ ls, ¬ MarkerLine l) (rest : List Line)
     (acc : Bytes) : parseLines (ls ++ rest) acc = parseLines rest (acc ++ joinLines ls) := by
   induction ls generalizing acc with
   | nil => simp [joinLines]
@@ -183,11 +183,11 @@ def fmtFile (f : File) : Bytes := marker ++ f.name ++ markerEnd ++ [NL] ++ fixNL
 
 theorem format_eq (a : Archive) : format a = fixNL a.comment ++ a.files.flatMap fmtFile := rfl
 
-theorem nl_not_mem_markerLine {n : Bytes} (h : NL ∉ n) : NL ∉ marker ++ n ++ markerEnd := by
+theorem nl_not_mem_markerLine [FLit] {n : Bytes} (h : NL ∉ n) : NL ∉ marker ++ n ++ markerEnd := by
   simp [marker_eq, markerEnd_eq, NL]
   exact h
 
-theorem splitLines_fmtFile {f : File} (hf : FileOK f) (rest : Bytes) :
+theorem splitLines_fmtFile [FLit] {f : File} (hf : FileOK f) (rest : Bytes) :
     splitLines (fmtFile f ++ rest) =
       ⟨marker ++ f.name ++ markerEnd, true⟩ :: splitLines (f.data ++ rest) := by
   unfold fmtFile
@@ -196,7 +196,7 @@ theorem splitLines_fmtFile {f : File} (hf : FileOK f) (rest : Bytes) :
       = (marker ++ f.name ++ markerEnd) ++ NL :: (f.data ++ rest) := by simp
   rw [this, splitLines_line_nl _ (nl_not_mem_markerLine hf.1.2.2)]
 
-theorem parseFiles_format (fs : List File) (hfs : ∀ f ∈ fs, FileOK f) (n data : Bytes)
+theorem parseFiles_format [FLen] [FLit] (fs : List File) (hfs : ∀ f ∈ fs, FileOK f) (n data : Bytes)
     (hd : BodyOK data) :
     parseFiles (splitLines (data ++ fs.flatMap fmtFile)) n [] = some (⟨n, data⟩ :: fs) := by
   induction fs generalizing n data with
@@ -215,7 +215,7 @@ theorem parseFiles_format (fs : List File) (hfs : ∀ f ∈ fs, FileOK f) (n dat
     rw [ih (fun f' hf' => hfs f' (by simp [hf'])) f.name f.data hf.2]
     rfl
 
-theorem parse_format_of_wf {a : Archive} (h : WF a) : parse (format a) = some a := by
+theorem parse_format_of_wf [FLen] [FLit] {a : Archive} (h : WF a) : parse (format a) = some a := by
   obtain ⟨c, fs⟩ := a
   obtain ⟨hc, hfs⟩ := h
   simp only at hc hfs
@@ -243,7 +243,7 @@ open GIV
 
 /-! ### the output of `parse` is well-formed -/
 
-theorem parseFiles_wf {ls : List Line} {name acc : Bytes} {fs : List File} (hok : LinesOK ls)
+theorem parseFiles_wf [FLen] [FCR] [FLit] {ls : List Line} {name acc : Bytes} {fs : List File} (hok : LinesOK ls)
     (hn : NameOK name) (hacc : AccOK ls acc) (h : parseFiles ls name acc = some fs) :
     ∀ f ∈ fs, FileOK f := by
   induction ls generalizing name acc fs with
@@ -282,7 +282,7 @@ theorem parseFiles_wf {ls : List Line} {name acc : Bytes} {fs : List File} (hok 
       subst hne
       exact ih hrest hn (accOK_step hok hacc' (not_markerLine_iff.mpr hmn)) h
 
-theorem parseLines_wf {ls : List Line} {acc : Bytes} {a : Archive} (hok : LinesOK ls)
+theorem parseLines_wf [FLen] [FCR] [FLit] {ls : List Line} {acc : Bytes} {a : Archive} (hok : LinesOK ls)
     (hacc : AccOK ls acc) (h : parseLines ls acc = some a) : WF a := by
   induction ls generalizing acc a with
   | nil =>
@@ -317,7 +317,7 @@ theorem parseLines_wf {ls : List Line} {acc : Bytes} {a : Archive} (hok : LinesO
       subst hne
       exact ih hrest (accOK_step hok hacc' (not_markerLine_iff.mpr hmn)) h
 
-theorem parse_wf {d : Bytes} {a : Archive} (h : parse d = some a) : WF a :=
+theorem parse_wf [FLen] [FCR] [FLit] {d : Bytes} {a : Archive} (h : parse d = some a) : WF a :=
   parseLines_wf (splitLines_ok d) (accOK_nil_acc _) h
 
 end GIV.Txtar
